@@ -288,24 +288,38 @@ DECO = Harness(
 # ------------------------------------------------------------------------------ race
 def race_params(tier):
     S = 6 if tier == "quick" else 9
-    return [P("fsteps", 0, 2), P("order", 0, 1)] + [P(f"s{i}", 0, 3) for i in range(S)]
+    return [P("fsteps", 0, 2), P("order", 0, 1), P("firstkind", 0, 2)] + [P(f"s{i}", 0, 3) for i in range(S)]
 
 
-@guard
-def race_fn(a, tier):
+FIRSTKINDS = ["a static resource", "generated by a sync factory", "generated by an async factory"]
+
+
+def _race(a, tier, min_firstkind=0):
     S = 6 if tier == "quick" else 9
     fsteps, order = pick(a["fsteps"], 3), pick(a["order"], 2)
+    firstkind = pick(a["firstkind"], 3)
+    if firstkind < min_firstkind:
+        return OK({"skipped": "first parameter not factory-generated"}, nontrivial=False)
     tape = Tape([a[f"s{i}"] for i in range(S)])
 
     @inject
     async def f(tag, *, first: T0 = resource(), second: T1 = resource()):
         return (tag, first.label, second.label)
 
-    results = {}
+    results, explicit = {}, {}
 
     async def worker(tag, delay):
         async with Context() as ctx:
-            ctx.add_resource(Val(f"first-{tag}"), types=[T0])
+            if firstkind == 0:
+                ctx.add_resource(Val(f"first-{tag}"), types=[T0])
+            elif firstkind == 1:
+                ctx.add_resource_factory(lambda: Val(f"first-{tag}"), types=[T0])
+            else:
+
+                async def fac0():
+                    return Val(f"first-{tag}")
+
+                ctx.add_resource_factory(fac0, types=[T0])
 
             async def fac():
                 for _ in range(fsteps if tag == "A" else delay):
@@ -314,6 +328,7 @@ def race_fn(a, tier):
 
             ctx.add_resource_factory(fac, types=[T1])
             results[tag] = await f(tag)
+            explicit[tag] = (tag, (await ctx.get_resource(T0)).label, (await ctx.get_resource(T1)).label)
 
     async def main():
         async with anyio.create_task_group() as tg:
@@ -321,13 +336,17 @@ def race_fn(a, tier):
                 tg.start_soon(worker, tag, 0)
 
     _, exc, _k = run(main, chooser=tape)
-    summary = {"factory_checkpoints_in_A": fsteps, "spawn_order": "A,B" if order == 0 else "B,A", "schedule": tape.taken}
+    summary = {"factory_checkpoints_in_A": fsteps, "spawn_order": "A,B" if order == 0 else "B,A", "schedule": tape.taken,
+               "first_injected_parameter_is": FIRSTKINDS[firstkind]}
     if exc is not None:
         return FAIL(f"race:raised:{type(exc).__name__}", repr(exc), summary)
     for tag in ("A", "B"):
-        if results.get(tag) != (tag, f"first-{tag}", f"second-{tag}"):
-            return FAIL("race:injected-values-from-another-context", f"{results}", summary)
+        if results.get(tag) != (tag, f"first-{tag}", f"second-{tag}") or explicit.get(tag) != results.get(tag):
+            return FAIL("race:injected-values-from-another-context", f"injected={results} explicit lookups in the same contexts={explicit}", summary)
     return OK(summary, True)
+
+
+race_fn = guard(_race)
 
 
 RACE = Harness(
@@ -337,7 +356,7 @@ RACE = Harness(
     params=race_params,
     cube=lambda tier: 2,
     title="two tasks in different contexts call the same injected coroutine function concurrently",
-    bound_text=lambda tier: f"two injected parameters, the second served by an async factory awaiting 0-2 checkpoints; first {6 if tier == 'quick' else 9} scheduling decisions arbitrary",
+    bound_text=lambda tier: f"two injected parameters, the first static / generated by a sync / an async factory, the second served by an async factory awaiting 0-2 checkpoints; first {6 if tier == 'quick' else 9} scheduling decisions arbitrary",
     oracle="each call receives the resources of its own current context",
     outside="more than two concurrent calls",
     stubs=STUBS_COMMON,
